@@ -170,7 +170,23 @@ func runC04(c *Ctx) {
 				}
 				bad += "not on the queue-empty edge: a backlog written meanwhile (e.g. in the dial callback) would lose its EPOLLOUT registration"
 			}
-			c.Cond(bad == "", "C04.O2", key, c.Pos(cs.In), "under Conn.mux on the queue-empty edge", bad)
+			if bad == "" {
+				// the queue test is not stale: no release of Conn.mux between the load it is based on and the disarm
+				for _, ft := range fi.Facts(cs.In) {
+					if e, ok := c.queueTest(ft); !ok || !e {
+						continue
+					}
+					for _, ld := range c.queueLoadsOf(ft.Cond) {
+						if ld.Parent() != f {
+							continue
+						}
+						if same, rel := L.SameRegion(fi, fConnMux, ld, cs.In); !same {
+							bad = "the queue-empty test behind this disarm read the queue at " + c.Pos(ld) + ", and Conn.mux is released at " + c.Pos(rel) + " before the disarm: a backlog written in between (by the dial callback, by another goroutine) loses its write interest"
+						}
+					}
+				}
+			}
+			c.Cond(bad == "", "C04.O2", key, c.Pos(cs.In), "under Conn.mux on the queue-empty edge, test and disarm in one critical section", bad)
 		}
 	}
 
@@ -767,4 +783,30 @@ func (c *Ctx) flagGuardedArm(f *ssa.Function) bool {
 		}
 	}
 	return true
+}
+
+// queueLoadsOf lists the loads of Conn.writeList that a condition is computed from.
+func (c *Ctx) queueLoadsOf(cond ssa.Value) []ssa.Instruction {
+	var out []ssa.Instruction
+	seen := map[ssa.Value]bool{}
+	var walk func(v ssa.Value, d int)
+	walk = func(v ssa.Value, d int) {
+		if v == nil || seen[v] || d > 8 {
+			return
+		}
+		seen[v] = true
+		if u, ok := v.(*ssa.UnOp); ok && u.Op == token.MUL && c.P.LoadedField(u) == fConnWriteList {
+			out = append(out, u)
+			return
+		}
+		if in, ok := v.(ssa.Instruction); ok {
+			for _, op := range in.Operands(nil) {
+				if *op != nil {
+					walk(*op, d+1)
+				}
+			}
+		}
+	}
+	walk(cond, 0)
+	return out
 }
